@@ -768,7 +768,10 @@ pub fn callback_defs() -> BoxedStrategy<(DefSpec, Vec<bool>, bool)> {
                 i += 1;
                 let value = values[vi % values.len()];
                 has_value.push(value);
-                if value {
+                if value && salt % 4 == 0 {
+                    // value variant without a callback: holds the matched slice (`Name::V(lex.slice())`)
+                    v[0].callback = None;
+                } else if value {
                     v[0].callback = Some(CbSpec { ret: RET_VALUE[r as usize % RET_VALUE.len()], salt, bump, form });
                 } else if on {
                     v[0].callback = Some(CbSpec { ret: RET_UNIT[r as usize % RET_UNIT.len()], salt, bump, form });
